@@ -122,6 +122,12 @@ def apply_edit(root, op):
         c.add_equation(e)
     elif kind == "rmeq":
         c.remove_equation(c.equations[op[2] % len(c.equations)])
+    elif kind == "transplant":
+        # reference: the source side rebuilt independently (fresh parse + the source's own edits so far)
+        src_ref = parse(op[4])
+        for e in op[2]:
+            apply_edit(src_ref, e)
+        c.add_class(get_class(src_ref, op[3]))
     else:
         raise ValueError(kind)
 
@@ -248,6 +254,20 @@ def handler(case):
                 kinds.append("sub")
                 roots.append(op[1])
                 lineage.append(None)
+            elif k == "transplant":
+                # add_class, to a class of tree op[1], of a class OBTAINED from tree op[3] by the public API
+                td, dpath, ts, spath, how = op[1], op[2], op[3], op[4], op[5]
+                if how == "fc":
+                    c = trees[ts].find_class(cref(spath), copy=True)
+                else:
+                    c = copy.deepcopy(get_class(trees[ts], spath))
+                src_before = digest(trees[roots[ts]]) if kinds[ts] == "root" else digest(trees[ts])
+                get_class(trees[td], dpath).add_class(c)
+                src_after = digest(trees[roots[ts]]) if kinds[ts] == "root" else digest(trees[ts])
+                r = {"done": True, "source_unchanged": (src_before == src_after) or td == ts}
+                if lineage[td] is not None:
+                    src_lin = [] if lineage[ts] is None else [json.loads(json.dumps(e)) for e in lineage[ts]]
+                    lineage[td].append(["transplant", dpath, src_lin, spath, text])
             elif k in ("flatten", "sympy", "xml"):
                 t = op[1]
                 got = do_flatten(trees[t], op[2]) if k == "flatten" else do_generate(k, trees[t], op[2])
